@@ -46,7 +46,7 @@ def main(tier, seed):
     nprog = 200 if thorough else 15
     common.build_tool()
     toolrun.anchor()
-    stats = {"rustc": 0, "c_headers": 0, "cpp_headers_x_std": 0, "cpp_all_orders": 0, "mjs": 0, "includes_resolved": 0, "imports_resolved": 0, "fixed_corpus_files": 0}
+    stats = {"rustc": 0, "c_headers": 0, "cpp_headers_x_std": 0, "cpp_all_orders": 0, "mjs": 0, "includes_resolved": 0, "imports_resolved": 0, "fixed_corpus_files": 0, "cfg_attrs": 0}
     shapes = set()
     cjobs = []
 
@@ -144,6 +144,7 @@ def main(tier, seed):
                 tooltier.add_special_methods(prog, rng, b)
             if i % 4 == 1:
                 tooltier.add_docs(prog, rng)
+            ncfg = tooltier.add_cfgs(prog, rng) if i % 4 == 2 else 0
             emit_rust.assign_abi_names(prog)
             d = toolrun.fresh_dir(toolrun.workdir("c09", "p%d_%s" % (i, b)))
             src, cfg = tooltier.write_program(prog, d, "")
@@ -165,6 +166,15 @@ def main(tier, seed):
                 viol.append(("rustc", "lib.rs", "macro expansion does not type-check: " + e[:900], {"this_clash": this_clash, "src": src}))
             else:
                 os.remove(os.path.join(d, "lib.rlib"))
+                if ncfg:
+                    # the other way round for every `feature = ".."` condition
+                    st["cfg_attrs"] += ncfg
+                    rc, o, e = toolrun.rustc_lib(src, os.path.join(d, "lib.rlib"), crate_type="rlib", extra=["--cfg", 'feature="vfx"'])
+                    st["rustc"] += 1
+                    if rc != 0:
+                        viol.append(("rustc", "lib.rs", "macro expansion does not type-check with --cfg feature=\"vfx\": " + e[:900], {"src": src}))
+                    else:
+                        os.remove(os.path.join(d, "lib.rlib"))
             if b == "cpp":
                 check_c(os.path.join(d, "c"), viol, st)
                 check_cpp(os.path.join(d, "cpp"), viol, st, rng)
@@ -260,7 +270,7 @@ def main(tier, seed):
     chk.evaluations = stats["rustc"] + stats["c_headers"] + stats["cpp_headers_x_std"] + stats["cpp_all_orders"] + stats["mjs"]
     chk.distinct = shapes
     chk.rule = ("seeded valid modules (per backend profile) enriched with cyclic opaque/struct references, nested namespaces, renames, keyword-named parameters "
-                "and fields, conditional attributes on impl blocks; a third of the programs also as a C-only variant with traits and `impl Trait` parameters; plus the repository's feature_tests and example bridges. Each accepted module: rustc on the "
+                "and fields, conditional attributes on impl blocks; every fourth program with plain #[cfg(..)] on methods and impl blocks (write methods preferred), its expansion type-checked with the feature off and on; a third of the programs also as a C-only variant with traits and `impl Trait` parameters; plus the repository's feature_tests and example bridges. Each accepted module: rustc on the "
                 "macro expansion; gcc -std=c11 -fsyntax-only on every .h alone; g++ -std=c++17 and c++20 -fsyntax-only on every .hpp alone and all headers "
                 "in shuffled orders; node --check on every .mjs; every #include/import target must exist and export the imported names. "
                 "distinct_nontrivial = distinct (backend, method shape) pairs of accepted programs.")
